@@ -41,7 +41,7 @@ struct Hist<'a, T: Tbl> {
     routes_tick: u64,
 }
 
-const OPS: [&str; 66] = [
+const OPS: [&str; 69] = [
     "zero", "one", "default", "nth_var", "parity", "majority", "threshold", "equals", "symmetric", "random",
     "from_blocks", "from_hex(print)", "from_hex(arbitrary)", "dyn-roundtrip", "int-roundtrip",
     "not-form", "and-form", "or-form", "xor-form",
@@ -54,6 +54,7 @@ const OPS: [&str; 66] = [
     "route:or-zero", "route:xor-zero", "route:and-one", "route:swap-as-adjacent", "route:flip-twice-inplace",
     "route:cofactor-of-independent", "route:from_hex(upper)", "route:static-dyn-static", "route:min-max", "route:sort",
     "tryfrom-other-size", "route:clone_from", "route:vec-clone_from", "clone_from-other-size",
+    "from-sop-cubes", "from-esop-cubes", "from-soes-terms",
 ];
 
 impl<'a, T: Tbl> Hist<'a, T> {
@@ -363,6 +364,47 @@ impl<'a, T: Tbl> Hist<'a, T> {
                 "esop-roundtrip" if n <= 8 => {
                     let s = Esop::from(&a.to_dyn());
                     T::try_from_dyn(Lut::from(&s)).into_iter().collect()
+                }
+                // tables tabulated from two-level forms given as arbitrary cube lists (constant cubes anywhere in the
+                // list, repeated cubes, any order): the conversion must yield a well-formed table like every other
+                // source of values
+                "from-sop-cubes" | "from-esop-cubes" | "from-soes-terms" if n <= 10 => {
+                    use volute::sop::{Cube, Ecube, Soes};
+                    let len = (kth % 5) + 1;
+                    let mut r = Rng::new(hash_of(&a) ^ kth as u64);
+                    let cubes: Vec<Cube> = (0..len)
+                        .map(|_| {
+                            let mut pos = 0u32;
+                            let mut neg = 0u32;
+                            for v in 0..n {
+                                match r.below(if n <= 3 { 3 } else { 5 }) {
+                                    0 => pos |= 1 << v,
+                                    1 => neg |= 1 << v,
+                                    _ => {}
+                                }
+                            }
+                            if r.chance(1, 4) {
+                                Cube::one()
+                            } else {
+                                Cube::from_mask(pos, neg)
+                            }
+                        })
+                        .collect();
+                    let l = match opname {
+                        "from-sop-cubes" => Lut::from(&Sop::from_cubes(n, cubes)),
+                        "from-esop-cubes" => Lut::from(&Esop::from_cubes(n, cubes)),
+                        _ => {
+                            let terms: Vec<Ecube> = cubes
+                                .iter()
+                                .map(|c| {
+                                    let vs: Vec<usize> = c.pos_vars().chain(c.neg_vars()).collect();
+                                    Ecube::from_vars(&vs, c.neg_vars().count() % 2 == 1)
+                                })
+                                .collect();
+                            Lut::from(&Soes::from_cubes(n, terms))
+                        }
+                    };
+                    T::try_from_dyn(l).into_iter().collect()
                 }
                 // ---- the same function as `a`, by another route ----
                 "route:print-parse" => T::t_from_hex_string(n, &hexa).into_iter().collect(),
